@@ -12,11 +12,12 @@ EVENT_OPS = [("wait", None), ("wait", "td"), ("wait", "abs"), ("wait", "zero"), 
 
 
 def gc_history():
-    hist = []
+    # three live waiters are queued while the collector prunes the timed-out ones: notify order stays FIFO
+    hist = [("wait", None), ("wait", None), ("wait", None)]
     for _ in range(103):
         hist += [("wait", "td"), ("adv",), ("adv",)]
-    return hist + [("wait", None), ("wait", "td"), ("notify", 1), ("wait", None), ("adv",), ("adv",),
-                   ("notify_all",)]
+    return hist + [("notify", 1), ("notify", 1), ("wait", None), ("wait", "td"), ("notify", 1), ("wait", None), ("adv",),
+                   ("adv",), ("notify_all",)]
 
 
 class C34(Check):
@@ -43,6 +44,7 @@ class C34(Check):
         parts = [(("cond",), i) for i in range(len(COND_OPS))]
         parts += [(("event",), i) for i in range(len(EVENT_OPS))]
         parts.append(("gc", 0))
+        parts += [(("cond",), "burst"), (("event",), "burst")]      # several operations within one loop iteration
         return parts
 
     def run_partition(self, part, tier, st):
@@ -59,13 +61,18 @@ class C34(Check):
                              {"spec": ("cond",), "hist": hist})
             return
         ops = COND_OPS if spec[0] == "cond" else EVENT_OPS
+        if i == "burst":
+            sync = ([("wait", None), ("notify", 1), ("notify_all",)] if spec[0] == "cond"
+                    else [("wait", None), ("set",), ("clear",)])
+            syncmodel.burst_family(spec, ops, sync, 6 if tier == "quick" else 8, st)
+            return
         d = self.depth(tier) + (1 if spec[0] == "event" else 0)
         syncmodel.bfs(spec, ops, [ops[i]], d, st)
         st.setmax("depth_" + spec[0], d)
 
     def replay(self, case):
         spec = tuple(case["spec"])
-        hist = tuple(tuple(o) for o in case["hist"])
+        hist = tuple(tuple(o) if o[0] != "burst" else ("burst", tuple(tuple(x) for x in o[1])) for o in case["hist"])
         try:
             canon, nf = syncmodel.run_history(spec, hist)
             return "history agrees with the reference; state %r" % (canon,)
